@@ -92,6 +92,23 @@ def write_vectors(args):
             out.append(dict(kind="write", **{"from": 0o1}, to=0o11, id=h.frame_id, type=ty, res0=res0, msg=list(msg),
                             air=[p["data"] for p in air.log], ret=bool(ok), type_before=before, type_after=h.message_type,
                             buf_intact=bytes(buf) == msg))
+    # aborted fragmented sends: fragment k is never acknowledged (every attempt lost)
+    for n in ([60, 144] if len(types) <= 5 else [49, 60, 100, 144]):
+        nfr = (n + 23) // 24
+        for kk in range(1, nfr + 1):
+            ty = 84
+            msg = bytes((i * 3 + n) & 0xFF for i in range(n))
+            h = RF24NetworkHeader(0o11, "T")
+            res0, before = h.reserved, h.message_type
+            want = nfr - kk + 1           # the fragment counter of the k-th fragment (the last one carries the type)
+            air.fate_fn = (lambda pkt, want=want, last=(kk == nfr): "P" if (len(pkt["data"]) >= 8 and (
+                (pkt["data"][6] == 150) if last else (pkt["data"][6] in (148, 149) and pkt["data"][7] == want))) else "D")
+            air.log.clear()
+            ok = node.write(RF24NetworkFrame(h, msg))
+            air.fate_fn = None
+            out.append(dict(kind="abort", **{"from": 0o1}, to=0o11, id=h.frame_id, type=ty, res0=res0, msg=list(msg),
+                            air=[p["data"] for p in air.log if p["fate"] != "P"], ret=bool(ok), type_before=before,
+                            type_after=h.message_type, lost_fragment=kk))
     return out
 
 
@@ -115,6 +132,8 @@ def run(chk):
             vec += res
     for v in vec:
         chk.case((v["kind"], str(v.get("f") or (v.get("type"), len(v.get("msg", []))) or v.get("n"))))
+        if v["kind"] == "abort" and v["ret"]:
+            raise tlc.TlcError("a write() whose fragment is never acknowledged returned True: harness problem")
         if v["kind"] == "write" and not v["ret"]:
             raise tlc.TlcError("write() to an ACKing neighbour returned False: harness problem")
     chk.traces += len(vec)
